@@ -200,6 +200,21 @@ type OverrideSpec struct {
 	Kind string `json:"kind"` // "new" (a fresh builtin), "int", "ref:<registered name>" (an existing object)
 }
 
+// OptSpec is one option of an option list.  Op: "nodefaults" (WithoutDefaultGlobals), "without" (WithoutGlobal(Names[0])),
+// "without_many" (WithoutGlobals(Names...)), "override" (WithGlobalOverride of Override[Idx[0]]), "global" (WithGlobal of
+// Extra[Idx[0]]), "globals" (WithGlobals of the Extra entries listed in Idx).
+type OptSpec struct {
+	Op    string   `json:"op"`
+	Names []string `json:"names"`
+	Idx   []int    `json:"idx"`
+}
+
+type ReuseObs struct {
+	Env     []string          `json:"env"`
+	Reach   []int             `json:"reach"`
+	Lookups map[string]string `json:"lookups"`
+}
+
 type ConfigSpec struct {
 	ID         string         `json:"id"`
 	Mode       string         `json:"mode"` // "A": identities captured before configuration; "B": plain API, identification by signature
@@ -211,6 +226,15 @@ type ConfigSpec struct {
 	Lookups    []string       `json:"lookups"`
 	Eval       []string       `json:"eval"`
 	Indep      bool           `json:"indep"` // also observe a second, untouched default configuration before and after
+	// A configuration as the composition of a SEQUENCE of options: when Opts is given the option list is built from it, in
+	// that order (Deny / Override then only say what to observe).  Extra holds the values of WithGlobal / WithGlobals options.
+	// Value kinds (Override and Extra): "new", "int", "ref:<name>", and modules the HOST assembles with
+	// object.NewBuiltinsModule from members of an existing module: "asm:<module>:<m1>,<m2>,..." (members of this
+	// configuration's own default module; mode A) and "asmx:<module>:<m1>,..." (members of a separate full instance).
+	Extra []OverrideSpec `json:"extra"`
+	Opts  []OptSpec      `json:"opts"`
+	// Reuse: further Configs made afterwards from sub-lists (indices into Opts) of the SAME Option values (mode B)
+	Reuse [][]int `json:"reuse"`
 }
 
 type DeniedObs struct {
@@ -243,6 +267,10 @@ type ConfigObs struct {
 	Eval    []EvalObs         `json:"eval"`
 	Problem string            `json:"problem,omitempty"`
 	Indep   string            `json:"indep,omitempty"` // "" (not asked), "ok", or what changed / is shared
+	// base ids (by signature) of reachable objects that belong to NO part of this configuration: copies of default
+	// objects from another instance (mode A)
+	ReachSig []int      `json:"reach_sig"`
+	Reuse    []ReuseObs `json:"reuse,omitempty"`
 }
 
 // walk follows a dotted name through real GetAttr calls starting in a globals map.
@@ -289,7 +317,7 @@ func classify(err error) string {
 func (b *Base) RunConfig(spec ConfigSpec) ConfigObs {
 	obs := ConfigObs{ID: spec.ID, Lookups: map[string]string{}}
 	ctx := context.Background()
-	var opts []risor.Option
+	var opts, tail []risor.Option
 	var h0 *Heap
 	var g0 map[string]any
 	newVals := map[key]string{}
@@ -320,9 +348,12 @@ func (b *Base) RunConfig(spec ConfigSpec) ConfigObs {
 				}
 			}
 		}
-		opts = append(opts, risor.WithoutDefaultGlobals(), risor.WithGlobals(g0))
-	} else if spec.NoDefaults {
+		// the captured defaults stand in for applyDefaultGlobals: they are written over what WithGlobal(s) options put
+		// there, so WithGlobals(g0) goes to the END of the option list (tail); the order among the other options is kept
 		opts = append(opts, risor.WithoutDefaultGlobals())
+		tail = append(tail, risor.WithGlobals(g0))
+	} else if spec.NoDefaults && len(spec.Opts) == 0 {
+		opts = append(opts, risor.WithoutDefaultGlobals()) // (an option list names WithoutDefaultGlobals itself, at its place)
 	}
 	// custom nested modules get the ids of instance 3 of the base graph (canonical order again)
 	var hc *Heap
@@ -406,44 +437,120 @@ func (b *Base) RunConfig(spec ConfigSpec) ConfigObs {
 		pre[ov.Name] = walkName(preGlobals, ov.Name)
 	}
 
-	if spec.DenyMany {
-		opts = append(opts, risor.WithoutGlobals(spec.Deny...))
-	} else {
-		for _, nm := range spec.Deny {
-			opts = append(opts, risor.WithoutGlobal(nm))
-		}
-	}
-	ovVals := map[string]object.Object{}
-	for i, ov := range spec.Override {
-		var val any
-		tag := fmt.Sprintf("%d", i)
+	// values of overrides and extra globals
+	var sepDefaults map[string]any // a separate full instance of the defaults (for "asmx:")
+	makeValue := func(kind, tag string, seq int) object.Object {
 		switch {
-		case ov.Kind == "int":
-			o := object.NewInt(int64(1000 + i))
-			val = o
+		case kind == "int":
+			o := object.NewInt(int64(1000 + seq))
 			k, _ := keyOf(o)
 			newVals[k] = tag
-			ovVals[ov.Name] = o
 			keep = append(keep, o)
-		case strings.HasPrefix(ov.Kind, "ref:"):
-			o := walkName(preGlobals, ov.Kind[4:])
+			return o
+		case strings.HasPrefix(kind, "ref:"):
+			o := walkName(preGlobals, kind[4:])
 			if o == nil {
 				o = object.Nil
 			}
-			val = o
-			ovVals[ov.Name] = o
+			return o
+		case strings.HasPrefix(kind, "asm:") || strings.HasPrefix(kind, "asmx:"):
+			f := strings.SplitN(kind, ":", 3)
+			src := preGlobals
+			if f[0] == "asmx" {
+				if sepDefaults == nil {
+					sepDefaults = risor.NewConfig().Globals()
+				}
+				src = sepDefaults
+			}
+			members := map[string]object.Object{}
+			if len(f) == 3 {
+				if full, ok := walkName(src, f[1]).(*object.Module); ok {
+					for _, a := range strings.Split(f[2], ",") {
+						if v, ok := safeGetAttr(full, a); ok && v != nil {
+							members[a] = v
+						}
+					}
+				}
+			}
+			// what an embedding application does to hand out part of a module: a new module from the members it picked
+			o := object.NewBuiltinsModule(f[1], members)
+			k, _ := keyOf(o)
+			newVals[k] = tag
+			keep = append(keep, o)
+			return o
 		default:
 			o := object.NewBuiltin("replacement"+tag, func(ctx context.Context, args ...object.Object) object.Object {
 				return object.NewString("replaced")
 			})
-			val = o
 			k, _ := keyOf(o)
 			newVals[k] = tag
-			ovVals[ov.Name] = o
 			keep = append(keep, o)
+			return o
 		}
-		opts = append(opts, risor.WithGlobalOverride(ov.Name, val))
 	}
+	ovVals := map[string]object.Object{}
+	ovObj := make([]object.Object, len(spec.Override))
+	for i, ov := range spec.Override {
+		ovObj[i] = makeValue(ov.Kind, fmt.Sprintf("%d", i), i)
+		ovVals[ov.Name] = ovObj[i] // the last value given for a name is the one installed
+	}
+	exObj := make([]object.Object, len(spec.Extra))
+	for i, ex := range spec.Extra {
+		exObj[i] = makeValue(ex.Kind, fmt.Sprintf("g%d", i), 500+i)
+	}
+	var userOpts []risor.Option
+	if len(spec.Opts) > 0 {
+		for _, o := range spec.Opts {
+			switch o.Op {
+			case "nodefaults":
+				userOpts = append(userOpts, risor.WithoutDefaultGlobals())
+			case "without":
+				if len(o.Names) == 1 {
+					userOpts = append(userOpts, risor.WithoutGlobal(o.Names[0]))
+				}
+			case "without_many":
+				userOpts = append(userOpts, risor.WithoutGlobals(o.Names...))
+			case "override":
+				if len(o.Idx) == 1 && o.Idx[0] < len(ovObj) {
+					userOpts = append(userOpts, risor.WithGlobalOverride(spec.Override[o.Idx[0]].Name, ovObj[o.Idx[0]]))
+				}
+			case "global":
+				if len(o.Idx) == 1 && o.Idx[0] < len(exObj) {
+					userOpts = append(userOpts, risor.WithGlobal(spec.Extra[o.Idx[0]].Name, exObj[o.Idx[0]]))
+				}
+			case "globals":
+				m := map[string]any{}
+				for _, j := range o.Idx {
+					if j < len(exObj) {
+						m[spec.Extra[j].Name] = exObj[j]
+					}
+				}
+				userOpts = append(userOpts, risor.WithGlobals(m))
+			default:
+				obs.Problem = "unknown option " + o.Op
+				return obs
+			}
+		}
+	} else {
+		if spec.DenyMany {
+			userOpts = append(userOpts, risor.WithoutGlobals(spec.Deny...))
+		} else {
+			for _, nm := range spec.Deny {
+				userOpts = append(userOpts, risor.WithoutGlobal(nm))
+			}
+		}
+		for i, ov := range spec.Override {
+			userOpts = append(userOpts, risor.WithGlobalOverride(ov.Name, ovObj[i]))
+		}
+	}
+	for _, o := range spec.Opts {
+		if o.Op == "override" && len(o.Idx) == 1 && o.Idx[0] < len(ovObj) {
+			ovVals[spec.Override[o.Idx[0]].Name] = ovObj[o.Idx[0]] // the overrides are a map: the last option given for a name wins
+		}
+	}
+	nprefix := len(opts)
+	opts = append(opts, userOpts...)
+	opts = append(opts, tail...)
 
 	// a second default configuration, created BEFORE this one is initialised and observed again afterwards
 	var gB map[string]any
@@ -471,6 +578,7 @@ func (b *Base) RunConfig(spec ConfigSpec) ConfigObs {
 	}
 	reach := h1.Reachable(roots)
 	reachBase := map[int]bool{}
+	sigSeen := map[int]bool{}
 	reachKey := map[key]bool{}
 	for id := range reach {
 		n := h1.Nodes[id-1]
@@ -487,8 +595,18 @@ func (b *Base) RunConfig(spec ConfigSpec) ConfigObs {
 			reachBase[bid] = true
 		} else {
 			obs.NewObjs++
+			// not an object of this configuration: a copy of a default object that belongs to another instance?
+			if !(n.Obj.Type() == object.STRING || n.Obj.Type() == object.INT || n.Obj.Type() == object.FLOAT) {
+				if bid, ok := b.SigID[sigOf(n.Obj)]; ok && !b.H.Nodes[bid-1].Fresh {
+					sigSeen[bid] = true
+				}
+			}
 		}
 	}
+	for id := range sigSeen {
+		obs.ReachSig = append(obs.ReachSig, id)
+	}
+	sort.Ints(obs.ReachSig)
 	for id := range reachBase {
 		obs.Reach = append(obs.Reach, id)
 	}
@@ -513,9 +631,9 @@ func (b *Base) RunConfig(spec ConfigSpec) ConfigObs {
 	for _, ov := range spec.Override {
 		o := pre[ov.Name]
 		seen := walkName(globals, ov.Name)
-		oo := OverObs{Name: ov.Name, Old: baseID(o), Seen: identify(seen), NewReachable: isReach(ovVals[ov.Name])}
+		oo := OverObs{Name: ov.Name, Old: baseID(o), Seen: identify(seen), NewReachable: isReach(ovObj[len(obs.Over)])}
 		// the old object counts as still reachable only if it is not itself the replacement
-		if o != nil && o != ovVals[ov.Name] {
+		if o != nil && o != ovVals[ov.Name] && o != ovObj[len(obs.Over)] {
 			oo.OldReachable = isReach(o)
 		}
 		obs.Over = append(obs.Over, oo)
@@ -532,6 +650,47 @@ func (b *Base) RunConfig(spec ConfigSpec) ConfigObs {
 			r = identify(res)
 		}
 		obs.Eval = append(obs.Eval, EvalObs{Src: src, Res: r})
+	}
+	// further Configs from sub-lists of the SAME Option values: an Option must not carry state from one Config to another
+	for _, idx := range spec.Reuse {
+		var sub []risor.Option
+		sub = append(sub, opts[:nprefix]...)
+		for _, j := range idx {
+			if j >= 0 && j < len(userOpts) {
+				sub = append(sub, userOpts[j])
+			}
+		}
+		sub = append(sub, tail...)
+		gR := risor.NewConfig(sub...).Globals()
+		ro := ReuseObs{Lookups: map[string]string{}}
+		for k := range gR {
+			ro.Env = append(ro.Env, k)
+		}
+		sort.Strings(ro.Env)
+		hR := NewHeap(b.H.Dict)
+		if rootsR, err := hR.AddRoots(gR); err == nil {
+			seen := map[int]bool{}
+			for id := range hR.Reachable(rootsR) {
+				n := hR.Nodes[id-1]
+				if n.Fresh {
+					continue
+				}
+				if k, ok := keyOf(n.Obj); ok {
+					if _, isNew := newVals[k]; isNew {
+						continue
+					}
+				}
+				if bid := baseID(n.Obj); bid != 0 && !seen[bid] {
+					seen[bid] = true
+					ro.Reach = append(ro.Reach, bid)
+				}
+			}
+			sort.Ints(ro.Reach)
+		}
+		for _, nm := range spec.Lookups {
+			ro.Lookups[nm] = identify(walkName(gR, nm))
+		}
+		obs.Reuse = append(obs.Reuse, ro)
 	}
 	if spec.Indep {
 		obs.Indep = "ok"
